@@ -23,6 +23,7 @@ DECIDED = [
     "per-call state on the converter: each execution binds freshly parsed argument objects, never the (possibly mutated) objects of an earlier execution",
     "R-C08-CALL: actor.fn is called only in actor_run as fn(*args, **kwargs, **dependencies) with the converter's unmodified result; the default "
     "converter selects pydantic v2, then v1, then basic",
+    "R-C08-EMPTY (transport): the empty payload reaches the converter - no truthiness test on the way (C07's rule reused); R-C08-ALIGN (model config): the pydantic input model keeps default matching (no extra/strict/alias/str_* option, no foreign base)",
 ]
 NOT_DECIDED = ["equality of the arguments produced by the two converters (value level)", "decode(convert_outputs(v)) == v (value level)"]
 ASSUMPTIONS = ["pydantic fills declared defaults unvalidated unless validate_default is configured"]
